@@ -16,13 +16,16 @@ CLAIM = dict(
          "(every interleaving at operation granularity, any number of contexts) each context's view and every observation equal "
          "a reference model holding one immutable mapping/stack per context; sibling operations never change another context's "
          "view; a child starts from the parent's snapshot; release affects only the releasing context; proxies resolve in the "
-         "accessing context and are unbound exactly where nothing is bound. Tied to the code by the translator and by differential "
+         "accessing context and are unbound exactly where nothing is bound, for EVERY entry of the regenerated table of proxied "
+         "operations; a snapshot persists whatever other contexts do later; request end (middleware close: application close, then "
+         "cleanup, in the regenerated order) empties the managed locals of the closing context only; and below operation granularity "
+         "no pre-existing cell is written under arbitrary interference between instructions. Tied to the code by the translator and by differential "
          "execution (extracted model vs werkzeug) on exhaustive and random schedules realised with copy_context, real threads "
          "and asyncio tasks.",
     note="Trusted: Coq kernel; translator tools/c18.py; contextvars contract (a context is an immutable map var -> object reference, "
          "copy_context is a snapshot, a new thread starts empty, a task starts from a copy); dict/list primitive semantics of the "
          "heap language (validated differentially); _ProxyLookup/LocalProxy layer hand-modelled (fallback table and "
-         "_get_current_object shapes pinned by the translator). Preemption inside one operation and event-loop scheduling are "
+         "_get_current_object closures translated to generated terms the model interprets; ContextVar / callable proxies harness-only). Preemption inside one operation and event-loop scheduling are "
          "not exhibited by the model; C18_cow_sound is the argument that they cannot matter.",
     design="6/C18")
 
@@ -405,7 +408,7 @@ def _pin_middleware(mod: ast.Module) -> str:
     init = _method(ci, "__init__")
     for n in ast.walk(init):
         if isinstance(n, ast.Call) and _norm(n.func) not in ("iter", "t.cast", "partial", "callable", "list", "getattr",
-                                                               "callbacks.insert"):
+                                                               "callbacks.insert", "callbacks.append"):
             raise px.Unsupported(f"wsgi.ClosingIterator.__init__ calls {_norm(n.func)}")
     for n in ast.walk(wsgi):
         if isinstance(n, (ast.Import, ast.ImportFrom)):
@@ -415,85 +418,196 @@ def _pin_middleware(mod: ast.Module) -> str:
     return "Definition middleware_cleanup_only_on_close : bool := true.\n"
 
 
-def _proxy_tables(mod: ast.Module) -> str:
-    """F part: the fallback table of the proxied special methods the model uses, and the shape of the
-    _get_current_object closures for Local and LocalStack (pinned structurally, fail closed)."""
+FB_TEXT = {
+    "lambda self: False": "FbFalse", "lambda self: True": "FbTrue",
+    "lambda self: f'<{type(self).__name__} unbound>'": "FbUnboundRepr", "lambda self: []": "FbEmptyList",
+    "lambda self: type(self).__doc__": "FbTypeDoc", "lambda self: self._LocalProxy__wrapped": "FbWrapped",
+    "lambda self: type(self)": "FbTypeSelf",
+}
+EXN = {"AttributeError": "EAttributeError", "LookupError": "ELookupError", "RuntimeError": "ERuntimeError"}
+
+
+def proxy_entries(mod: ast.Module | None = None):
+    """T1: every `name = _ProxyLookup(...)` / `_ProxyIOp(...)` of LocalProxy's class body, in source order, as
+    (name, has_f, fallback kind, is_attr, is_iop).  Any other statement in the class body (a special method
+    defined directly on the proxy would bypass _get_current_object) fails closed."""
+    mod = mod or px.load("local.py")
     lp = px.find_class(mod, "LocalProxy")
-    table = {}
+    out = []
     for n in lp.body:
+        if isinstance(n, ast.Expr) and isinstance(n.value, ast.Constant) and isinstance(n.value.value, str):
+            continue
+        if isinstance(n, ast.Assign) and _norm(n.targets[0]) == "__slots__" and _norm(n.value) == "('__wrapped', '_get_current_object')":
+            continue
+        if isinstance(n, ast.AnnAssign) and _norm(n.target) == "_get_current_object" and n.value is None:
+            continue
+        if isinstance(n, ast.FunctionDef) and n.name == "__init__" and not n.decorator_list:
+            continue
         if (isinstance(n, ast.Assign) and len(n.targets) == 1 and isinstance(n.targets[0], ast.Name)
                 and isinstance(n.value, ast.Call) and isinstance(n.value.func, ast.Name)
                 and n.value.func.id in ("_ProxyLookup", "_ProxyIOp")):
-            kw = {k.arg: k.value for k in n.value.keywords}
-            fb = kw.get("fallback")
-            if len(n.value.args) > 1:
-                fb = n.value.args[1]
-            table[n.targets[0].id] = (n.value.args[0] if n.value.args else None, fb, kw)
-    want = {"__bool__": ("bool", "lambda self: False"),
-            "__repr__": ("repr", "lambda self: f'<{type(self).__name__} unbound>'"),
-            "__getattr__": ("getattr", None), "__setattr__": ("setattr", None), "__delattr__": ("delattr", None)}
-    out = []
-    for name, (f, fb) in want.items():
-        if name not in table:
-            raise px.Unsupported(f"LocalProxy.{name} is not a _ProxyLookup")
-        gf, gfb, kw = table[name]
-        if gf is None or _norm(gf) != f:
-            raise px.Unsupported(f"LocalProxy.{name} no longer forwards to {f}")
-        if (None if gfb is None else _norm(gfb)) != fb:
-            raise px.Unsupported(f"LocalProxy.{name} fallback changed: {None if gfb is None else _norm(gfb)}")
-        if "is_attr" in kw or "class_value" in kw:
-            raise px.Unsupported(f"LocalProxy.{name}: unexpected is_attr / class_value")
-    out.append("Definition proxy_bool_fallback : option bool := Some false.")
-    out.append("Definition proxy_repr_has_fallback : bool := true.")
-    out.append("Definition proxy_getattr_has_fallback : bool := false.")
-    out.append("Definition proxy_setattr_has_fallback : bool := false.")
+            call = n.value
+            kw = {k.arg: k.value for k in call.keywords}
+            if set(kw) - {"f", "fallback", "class_value", "is_attr"} or len(call.args) > 2:
+                raise px.Unsupported(f"LocalProxy.{n.targets[0].id}: unexpected _ProxyLookup arguments")
+            f = call.args[0] if call.args else kw.get("f")
+            fb = call.args[1] if len(call.args) > 1 else kw.get("fallback")
+            is_attr = "is_attr" in kw and px.const(kw["is_attr"]) is True
+            if "is_attr" in kw and not is_attr:
+                raise px.Unsupported(f"LocalProxy.{n.targets[0].id}: is_attr is not the literal True")
+            kind = "FbNone" if fb is None else FB_TEXT.get(_norm(fb), "FbOther")
+            out.append((n.targets[0].id, f is not None, kind, is_attr, call.func.id == "_ProxyIOp"))
+            continue
+        raise px.Unsupported(f"LocalProxy class body line {n.lineno}: {_norm(n)[:60]!r} is neither __init__ nor a _ProxyLookup: "
+                             "an operation defined directly on the proxy does not go through _get_current_object")
+    if len({e[0] for e in out}) != len(out):
+        raise px.Unsupported("LocalProxy defines a proxied name twice")
+    return out
 
-    # _ProxyLookup.__get__ : try obj = instance._get_current_object() except RuntimeError: fallback or re-raise
+
+def _handler(tr: ast.Try, what: str):
+    if len(tr.handlers) != 1 or tr.orelse or tr.finalbody or tr.handlers[0].type is None or tr.handlers[0].name:
+        raise px.Unsupported(f"{what}: try shape changed")
+    return tr.handlers[0]
+
+
+def _raises_unbound(stmts, what: str) -> None:
+    if len(stmts) != 1 or not isinstance(stmts[0], ast.Raise) or _norm(stmts[0].exc) != "RuntimeError(unbound_message)":
+        raise px.Unsupported(f"{what}: does not raise RuntimeError(unbound_message)")
+
+
+def _proxy_tables(mod: ast.Module) -> str:
+    """the proxy layer: T1 table of every proxied name; the four _get_current_object closures of LocalProxy.__init__
+    and the exception flow of _ProxyLookup.__get__ translated to small generated terms the model interprets."""
+    out = []
+    ents = proxy_entries(mod)
+    out.append("(* " + " ".join(f"{i}={e[0]}" for i, e in enumerate(ents)) + " *)")
+    out.append("Definition proxy_table : list pentry :=\n  [" + ";\n   ".join(
+        f"mkpentry {i} {str(e[1]).lower()} {e[2]} {str(e[3]).lower()} {str(e[4]).lower()}" for i, e in enumerate(ents)) + "].")
+    idx = {e[0]: i for i, e in enumerate(ents)}
+    for nm in ("__bool__", "__repr__", "__getattr__", "__setattr__"):
+        if nm not in idx:
+            raise px.Unsupported(f"LocalProxy.{nm} is not a _ProxyLookup")
+        out.append(f"Definition entry_{nm.strip('_')} : nat := {idx[nm]}.")
+    lp = px.find_class(mod, "LocalProxy")
+    fs = {}
+    for n in lp.body:
+        if isinstance(n, ast.Assign) and isinstance(n.value, ast.Call) and _norm(n.value.func) == "_ProxyLookup" and n.value.args:
+            fs[n.targets[0].id] = _norm(n.value.args[0])
+    for nm, f in (("__bool__", "bool"), ("__repr__", "repr"), ("__getattr__", "getattr"), ("__setattr__", "setattr")):
+        if fs.get(nm) != f:
+            raise px.Unsupported(f"LocalProxy.{nm} no longer forwards to {f}")
+
+    # _ProxyLookup.__get__ : try obj = instance._get_current_object() except <E>: fallback or re-raise
     pl = px.find_class(mod, "_ProxyLookup")
     get = _method(pl, "__get__")
     tries = [n for n in get.body if isinstance(n, ast.Try)]
     if len(tries) != 1:
         raise px.Unsupported("_ProxyLookup.__get__: expected one try statement")
     tr = tries[0]
-    if ([_norm(s) for s in tr.body] != ["obj = instance._get_current_object()"] or len(tr.handlers) != 1
-            or _norm(tr.handlers[0].type) != "RuntimeError" or tr.orelse or tr.finalbody):
-        raise px.Unsupported("_ProxyLookup.__get__: try shape changed")
-    hb = [_norm(s) for s in tr.handlers[0].body]
+    h = _handler(tr, "_ProxyLookup.__get__")
+    if [_norm(s) for s in tr.body] != ["obj = instance._get_current_object()"]:
+        raise px.Unsupported("_ProxyLookup.__get__: try body changed")
+    out.append(f"Definition lookup_catch : exn := {EXN.get(_norm(h.type), 'EOther')}.")
+    hb = [_norm(s) for s in h.body]
     if hb != ["if self.fallback is None:\n    raise", "fallback = self.fallback.__get__(instance, owner)",
               "if self.is_attr:\n    return fallback()", "return fallback"]:
-        raise px.Unsupported("_ProxyLookup.__get__: RuntimeError handler changed")
+        raise px.Unsupported("_ProxyLookup.__get__: handler changed")
     tail = [_norm(s) for s in get.body[get.body.index(tr) + 1:]]
     if tail != ["if self.bind_f is not None:\n    return self.bind_f(instance, obj)", "return getattr(obj, self.name)"]:
         raise px.Unsupported("_ProxyLookup.__get__: bound branch changed")
+    for cname in ("_ProxyLookup", "_ProxyIOp"):
+        init = _method(px.find_class(mod, cname), "__init__")
+        for n in ast.walk(init):
+            if isinstance(n, ast.Attribute) and n.attr in ("_get_current_object", "_LocalProxy__wrapped"):
+                raise px.Unsupported(f"{cname}.__init__ touches the proxy's current object at definition time")
 
-    # LocalProxy.__init__: the Local and LocalStack closures
+    # LocalProxy.__init__: get_name, default message, and the four closures
     init = _method(lp, "__init__")
-    chain = [n for n in init.body if isinstance(n, ast.If) and _norm(n.test) == "isinstance(local, Local)"]
-    if len(chain) != 1:
-        raise px.Unsupported("LocalProxy.__init__: isinstance(local, Local) branch not found")
-    loc_branch = chain[0]
-    defs = [n for n in loc_branch.body if isinstance(n, ast.FunctionDef)]
-    if len(defs) != 1 or defs[0].name != "_get_current_object" or [_norm(s) for s in defs[0].body] != [
-            "try:\n    return get_name(local)\nexcept AttributeError:\n    raise RuntimeError(unbound_message) from None"]:
-        raise px.Unsupported("LocalProxy.__init__: Local closure changed")
-    if len(loc_branch.orelse) != 1 or not isinstance(loc_branch.orelse[0], ast.If) or _norm(loc_branch.orelse[0].test) != "isinstance(local, LocalStack)":
-        raise px.Unsupported("LocalProxy.__init__: LocalStack branch not found")
-    st_branch = loc_branch.orelse[0]
-    defs = [n for n in st_branch.body if isinstance(n, ast.FunctionDef)]
-    if len(defs) != 1 or defs[0].name != "_get_current_object" or [_norm(s) for s in defs[0].body] != [
-            "obj = local.top", "if obj is None:\n    raise RuntimeError(unbound_message)", "return get_name(obj)"]:
-        raise px.Unsupported("LocalProxy.__init__: LocalStack closure changed")
-    gn = [n for n in init.body if isinstance(n, ast.If) and _norm(n.test) == "name is None"]
-    if len(gn) != 1 or [_norm(s) for s in gn[0].body] != ["get_name = _identity"] or \
-            [_norm(s) for s in gn[0].orelse] != ["get_name = attrgetter(name)"]:
+    body = _strip_doc(init.body)
+    if len(body) != 5:
+        raise px.Unsupported(f"LocalProxy.__init__ has {len(body)} statements, expected 5")
+    if _norm(body[0]) != "if name is None:\n    get_name = _identity\nelse:\n    get_name = attrgetter(name)":
         raise px.Unsupported("LocalProxy.__init__: get_name selection changed")
-    tailset = [_norm(s) for s in init.body[-2:]]
-    if tailset != ["object.__setattr__(self, '_LocalProxy__wrapped', local)",
-                   "object.__setattr__(self, '_get_current_object', _get_current_object)"]:
+    if _norm(body[1]) != "if unbound_message is None:\n    unbound_message = 'object is not bound'":
+        raise px.Unsupported("LocalProxy.__init__: default unbound message changed")
+    if [_norm(x) for x in body[3:]] != ["object.__setattr__(self, '_LocalProxy__wrapped', local)",
+                                        "object.__setattr__(self, '_get_current_object', _get_current_object)"]:
         raise px.Unsupported("LocalProxy.__init__: _get_current_object is no longer stored per instance")
-    out.append("Definition gco_local_maps_attribute_error_to_runtime_error : bool := true.")
-    out.append("Definition gco_stack_none_top_is_runtime_error : bool := true.")
+    ident = _strip_doc(px.find_def(mod, "_identity").body)
+    if [_norm(x) for x in ident] != ["return o"]:
+        raise px.Unsupported("_identity changed")
+    chain, node = [], body[2]
+    while isinstance(node, ast.If):
+        chain.append((_norm(node.test), node.body))
+        node = node.orelse[0] if len(node.orelse) == 1 and isinstance(node.orelse[0], ast.If) else node.orelse
+    if [c[0] for c in chain] != ["isinstance(local, Local)", "isinstance(local, LocalStack)", "isinstance(local, ContextVar)",
+                                 "callable(local)"]:
+        raise px.Unsupported(f"LocalProxy.__init__: dispatch chain changed: {[c[0] for c in chain]}")
+    if len(node) != 1 or not isinstance(node[0], ast.Raise):
+        raise px.Unsupported("LocalProxy.__init__: final else no longer raises")
+
+    def closure(stmts, what, guard=None):
+        stmts = list(stmts)
+        if guard is not None:
+            if not stmts or _norm(stmts[0]) != guard:
+                raise px.Unsupported(f"{what}: guard changed")
+            stmts = stmts[1:]
+        if (len(stmts) != 1 or not isinstance(stmts[0], ast.FunctionDef) or stmts[0].name != "_get_current_object"
+                or stmts[0].args.args or stmts[0].decorator_list):
+            raise px.Unsupported(f"{what}: expected exactly def _get_current_object()")
+        return stmts[0].body
+
+    b = closure(chain[0][1], "Local closure",
+                "if name is None:\n    raise TypeError(\"'name' is required when proxying a 'Local' object.\")")
+    if len(b) != 1 or not isinstance(b[0], ast.Try) or [_norm(x) for x in b[0].body] != ["return get_name(local)"]:
+        raise px.Unsupported("Local closure: body changed")
+    h = _handler(b[0], "Local closure")
+    _raises_unbound(h.body, "Local closure")
+    out.append(f"Definition gco_local : gco_prog := GcoLocal {EXN.get(_norm(h.type), 'EOther')}.")
+
+    b = closure(chain[1][1], "LocalStack closure")
+    if (len(b) != 3 or _norm(b[0]) != "obj = local.top" or not isinstance(b[1], ast.If) or b[1].orelse
+            or _norm(b[2]) != "return get_name(obj)"):
+        raise px.Unsupported("LocalStack closure: body changed")
+    _raises_unbound(b[1].body, "LocalStack closure")
+    test = {"obj is None": "TIsNone", "not obj": "TFalsy", "obj is None or not obj": "TFalsy"}.get(_norm(b[1].test))
+    if test is None:
+        raise px.Unsupported(f"LocalStack closure: unbound test {_norm(b[1].test)!r} not in the T2 subset")
+    out.append(f"Definition gco_stack : gco_prog := GcoStack {test}.")
+
+    b = closure(chain[2][1], "ContextVar closure")
+    if (len(b) != 2 or not isinstance(b[0], ast.Try) or [_norm(x) for x in b[0].body] != ["obj = local.get()"]
+            or _norm(b[1]) != "return get_name(obj)"):
+        raise px.Unsupported("ContextVar closure: body changed")
+    h = _handler(b[0], "ContextVar closure")
+    _raises_unbound(h.body, "ContextVar closure")
+    out.append(f"Definition gco_var : gco_prog := GcoVar {EXN.get(_norm(h.type), 'EOther')}.")
+
+    b = closure(chain[3][1], "callable closure")
+    if [_norm(x) for x in b] != ["return get_name(local())"]:
+        raise px.Unsupported("callable closure: body changed")
+    out.append("Definition gco_call : gco_prog := GcoCall.")
     return "\n".join(out) + "\n"
+
+
+def _closing_order() -> str:
+    """wsgi.ClosingIterator: in which order close() runs the wrapped iterable's own close and the given callback"""
+    ci = px.find_class(px.load("wsgi.py"), "ClosingIterator")
+    init = _method(ci, "__init__")
+    pos = None
+    for n in ast.walk(init):
+        if isinstance(n, ast.If) and _norm(n.test) == "iterable_close":
+            body = [_norm(x) for x in n.body]
+            if body == ["callbacks.insert(0, iterable_close)"]:
+                pos = "[CbIterableClose; CbGiven]"
+            elif body == ["callbacks.append(iterable_close)"]:
+                pos = "[CbGiven; CbIterableClose]"
+    if pos is None or "iterable_close = getattr(iterable, 'close', None)" not in [_norm(x) for x in init.body]:
+        raise px.Unsupported("wsgi.ClosingIterator.__init__: position of the iterable's own close not recognised")
+    if "self._callbacks = callbacks" not in [_norm(x) for x in init.body]:
+        raise px.Unsupported("wsgi.ClosingIterator.__init__: callbacks not stored")
+    return f"Definition closing_order : list close_cb := {pos}.\n"
 
 
 def gen_text() -> str:
@@ -524,6 +638,7 @@ def gen_text() -> str:
             raise px.Unsupported(f"{cname}.__call__ no longer returns LocalProxy(self, name, ...)")
     _pin_release_and_manager(mod)
     text += _pin_middleware(mod)
+    text += _closing_order()
     text += _proxy_tables(mod)
     return text
 
@@ -539,17 +654,33 @@ import contextvars  # noqa: E402
 import threading  # noqa: E402
 
 NAMES = ["a", "b", "c"]
-ACC = ["cur", "bool", "repr", "get", "set"]
+ACC = ["cur", "bool", "repr", "get", "set", "msg"]
+_ENTRIES = None
+EXPECTED_FB = {"__doc__": "FbTypeDoc", "__wrapped__": "FbWrapped", "__repr__": "FbUnboundRepr", "__bool__": "FbFalse",
+               "__dir__": "FbEmptyList", "__class__": "FbTypeSelf"}    # the property: unbound = RuntimeError / falsy / fallback repr
+
+
+def entry_names() -> list[str]:
+    """the proxied names in the order of the regenerated proxy_table"""
+    global _ENTRIES
+    if _ENTRIES is None:
+        try:
+            _ENTRIES = [e[0] for e in proxy_entries()]
+        except px.Unsupported:
+            import werkzeug.local as wl
+            _ENTRIES = [k for k, v in vars(wl.LocalProxy).items() if isinstance(v, wl._ProxyLookup)]
+    return _ENTRIES
 T_WAIT = 20.0
 
 
 class Box:
     """the objects stored in locals / pushed on stacks; identity n, truthy iff n is odd"""
-    __slots__ = ("n", "tag")
+    __slots__ = ("n", "tag", "twin")
 
     def __init__(self, n):
         self.n = n
         self.tag = None
+        self.twin = None
 
     def __bool__(self):
         return self.n % 2 == 1
@@ -565,9 +696,26 @@ class Env:
         self.S = [mod.LocalStack(), mod.LocalStack()]
         self.manager = mod.LocalManager([self.L[0], self.S[0], self.L[1], self.S[1]])
 
+        env = self
+
+        class Body:
+            """the application's response iterable; its own close() stores an object in managed local 0 (name c)"""
+
+            def __init__(self, x):
+                self.x, self.it = x, iter([b"x"])
+
+            def __iter__(self):
+                return self
+
+            def __next__(self):
+                return next(self.it)
+
+            def close(self):
+                setattr(env.L[0], NAMES[2], env.box(self.x))
+
         def app(environ, start_response):
             start_response("200 OK", [("Content-Type", "text/plain")])
-            return [b"x"]
+            return Body(environ["x"]) if environ["x"] else [b"x"]
         self.wrapped = [self.manager.make_middleware(app), self.manager.middleware(app)]
         self.reset()
 
@@ -581,7 +729,71 @@ class Env:
         b = self.boxes.get(n)
         if b is None:
             b = self.boxes[n] = Box(n)
+            b.twin = self.boxes[n + 1001] = Box(n + 1001)      # the attribute a named proxy (stack("twin")) follows
         return b
+
+    def retrofit(self):
+        """give every object a class of its own, so that __class__ / __doc__ / __wrapped__ and the AttributeError
+        of a missing special method identify the object a proxied lookup was forwarded to"""
+        for b in self.boxes.values():
+            if type(b) is Box:
+                b.__class__ = _box_class(b.n)
+
+
+_BOX_CLASSES: dict = {}
+
+
+def _box_class(n: int):
+    c = _BOX_CLASSES.get(n)
+    if c is None:
+        c = _BOX_CLASSES[n] = type(f"Box{n}", (Box,), {"__slots__": (), "boxid": n, "__doc__": f"doc{n}",
+                                                       "__wrapped__": ("w", n)})
+    return c
+
+
+def _lookup_entry(env: Env, p, name: str) -> str:
+    """type(p).<name> looked up on the proxy instance, the way the interpreter finds a special method:
+    which object was it forwarded to / which fallback answered"""
+    import functools
+    import re
+    LP = env.mod.LocalProxy
+    env.retrofit()
+    try:
+        r = vars(LP)[name].__get__(p, LP)
+    except RuntimeError:
+        return "rterr"
+    except AttributeError as e:
+        m = re.match(r"'Box(\d+)' object has no attribute", str(e))
+        return f"fwd:{m.group(1)}" if m else "exn:AttributeError"
+    if isinstance(r, functools.partial) and r.args and isinstance(r.args[0], Box):
+        return f"fwd:{r.args[0].n}"
+    owner = getattr(r, "__self__", None)
+    if owner is not None and type(owner) is LP:
+        v = r()                         # a fallback bound to the proxy itself: what does it answer
+        if v is False:
+            return "fb:FbFalse"
+        if v is True:
+            return "fb:FbTrue"
+        if v == "<LocalProxy unbound>":
+            return "fb:FbUnboundRepr"
+        if v == []:
+            return "fb:FbEmptyList"
+        return "fb:FbOther"
+    if isinstance(owner, Box):
+        return f"fwd:{owner.n}"
+    if isinstance(r, type) and issubclass(r, Box):
+        return f"fwd:{r.boxid}"
+    if r is LP:
+        return "fb:FbTypeSelf"
+    if isinstance(r, str) and r.startswith("doc"):
+        return f"fwd:{r[3:]}"
+    if r is LP.__dict__["__doc__"].class_value or (isinstance(r, str) and r == type(p).__doc__):
+        return "fb:FbTypeDoc"
+    if isinstance(r, tuple) and len(r) == 2 and r[0] == "w":
+        return f"fwd:{r[1]}"
+    if any(r is x for x in env.L + env.S):
+        return "fb:FbWrapped"
+    return "fb:FbOther"
 
 
 def tok(step) -> str:
@@ -599,11 +811,25 @@ def mtok(step) -> str:
     """the step as the extracted model reads it: closing a middleware-wrapped iterable IS cleanup() in the closing
     context (structure pinned by the translator); wrapping and dropping are the model's no-effect steps"""
     c, op = step
-    if op[0] == "mwclose":
-        return f"{c}:clean:{MW_LOCALS}"
     if op[0] in ("mwopen", "mwdrop"):
         return f"{c}:{op[0]}"
     return tok(step)
+
+
+def mtoks(steps) -> str:
+    """the schedule as the extracted model reads it: mwclose carries the managed locals and what the application's
+    own close() of that iterable does (local0.c = x, from the mwopen that produced it)"""
+    xs, out = [], []
+    for st in steps:
+        c, op = st
+        if op[0] == "mwopen":
+            xs.append(op[1] if len(op) > 1 else 0)
+        if op[0] == "mwclose":
+            x = xs[op[1]] if op[1] < len(xs) else 0
+            out.append(f"{c}:mwclose:{MW_LOCALS}:" + (f"0.2.{x}" if x else "-"))
+        else:
+            out.append(mtok(st))
+    return " ".join(out)
 
 
 def untok(t: str):
@@ -659,7 +885,8 @@ def apply(env: Env, op) -> str:
             env.mod.LocalManager([env.S[v] if s else env.L[v] for s, v in op[1]]).cleanup()
             return "none"
         if k == "mwopen":
-            it = env.wrapped[len(env.iters) % 2]({"REQUEST_METHOD": "GET"}, lambda status, headers, exc_info=None: None)
+            it = env.wrapped[len(env.iters) % 2]({"REQUEST_METHOD": "GET", "x": op[1] if len(op) > 1 else 0},
+                                                 lambda status, headers, exc_info=None: None)
             next(it)
             env.iters.append(it)
             del it
@@ -677,12 +904,24 @@ def apply(env: Env, op) -> str:
                 gc.collect()
             return "none"
         if k == "mkp":
-            env.prox.append(env.L[op[2]](NAMES[op[3]]) if op[1] == "l" else env.S[op[2]]())
+            kw = {"unbound_message": f"m{op[4]}"} if op[4] else {}
+            if op[1] == "l":
+                env.prox.append(env.L[op[2]](NAMES[op[3]], **kw))
+            else:
+                env.prox.append(env.S[op[2]]("twin" if op[3] else None, **kw))
             return f"proxy:{len(env.prox) - 1}"
         if k == "px":
             if op[1] >= len(env.prox):
                 return "invalid"
             p, a = env.prox[op[1]], op[2]
+            if a[0] == "e":
+                names = entry_names()
+                return _lookup_entry(env, p, names[int(a[1:])]) if int(a[1:]) < len(names) else "invalid"
+            if a == "msg":
+                try:
+                    return f"v{p._get_current_object().n}"
+                except RuntimeError as e:
+                    return "msg:default" if str(e) == "object is not bound" else "msg:" + str(e)[1:]
             if a == "bool":
                 return "bool:1" if bool(p) else "bool:0"
             if a == "repr":
@@ -909,7 +1148,7 @@ def oracle(steps) -> list[str]:
         if d[0] == "l":
             return dict(m.get(("l", d[1]), ())).get(d[2])
         st = m.get(("s", d[1]), ())
-        return st[-1] if st else None
+        return (st[-1] + (1001 if d[2] else 0)) if st else None
     for c, op in steps:
         if c >= len(ctxs):
             outs.append("invalid")
@@ -957,7 +1196,7 @@ def oracle(steps) -> list[str]:
                 m[("s" if s else "l", v)] = ()
             outs.append("none")
         elif k == "mwopen":
-            iters.append(True)
+            iters.append(op[1] if len(op) > 1 and op[1] else True)
             outs.append("none")               # wrapping a response iterable touches no context
         elif k == "mwdrop":
             if op[1] >= len(iters):
@@ -969,8 +1208,12 @@ def oracle(steps) -> list[str]:
             if op[1] >= len(iters) or not iters[op[1]]:
                 outs.append("invalid")
                 continue
+            if iters[op[1]] is not True:       # the application's own close() first: local0.c = x, in the closing context
+                d = dict(m.get(("l", 0), ()))
+                d[2] = iters[op[1]]
+                m[("l", 0)] = tuple(d.items())
             for kind, v in (("l", 0), ("s", 0), ("l", 1), ("s", 1)):
-                m[(kind, v)] = ()              # close() = cleanup() in the CLOSING context only
+                m[(kind, v)] = ()              # ... then cleanup() - request end leaves nothing behind - in the CLOSING context only
             outs.append("none")
         elif k == "spawn":
             ctxs.append(dict(m))
@@ -986,7 +1229,19 @@ def oracle(steps) -> list[str]:
                 outs.append("invalid")
                 continue
             b, a = bound(m, prox[op[1]]), op[2]
-            if a == "bool":
+            if a[0] == "e":
+                names = entry_names()
+                if int(a[1:]) >= len(names):
+                    outs.append("invalid")
+                elif b is not None:
+                    outs.append(f"fwd:{b}")           # EVERY operation is forwarded to the object bound HERE
+                else:
+                    fb = EXPECTED_FB.get(names[int(a[1:])])
+                    outs.append(f"fb:{fb}" if fb else "rterr")
+            elif a == "msg":
+                mm = prox[op[1]][3]
+                outs.append(f"v{b}" if b is not None else (f"msg:{mm}" if mm else "msg:default"))
+            elif a == "bool":
                 outs.append("bool:0" if b is None else f"bool:{b % 2}")
             elif a == "repr":
                 outs.append("repr:unbound" if b is None else f"repr:{b}")
@@ -998,14 +1253,16 @@ def oracle(steps) -> list[str]:
 
 
 # ---------------------------------------------------------------- schedule generators
-PREFIX = [(0, ("mkp", "l", 0, 0)), (0, ("mkp", "s", 0))]     # proxy 0 = local0("a"), proxy 1 = stack0()
+# proxy 0 = local0("a"), proxy 1 = stack0(), proxy 2 = stack0("twin", unbound_message="m5")
+PREFIX = [(0, ("mkp", "l", 0, 0, 0)), (0, ("mkp", "s", 0, 0, 0)), (0, ("mkp", "s", 0, 1, 5))]
 
 
 def observe(nctx: int, salt: int):
     out = []
     for c in range(nctx):
-        out += [(c, ("iter", 0)), (c, ("top", 0)), (c, ("px", 0, ACC[(salt + c) % 5])),
-                (c, ("px", 1, ACC[(salt + c + 2) % 5]))]
+        out += [(c, ("iter", 0)), (c, ("top", 0)), (c, ("px", 0, ACC[(salt + c) % 6])),
+                (c, ("px", 1 + (salt + c) % 2, ACC[(salt + c + 2) % 6])),
+                (c, ("px", (salt + c) % 3, f"e{(salt * 31 + c * 17) % len(entry_names())}"))]
     return out
 
 
@@ -1053,7 +1310,7 @@ def realise(muts, every_step: bool, gcflag: int = 0):
         if k == "mwopen":
             live.append(nopen)
             nopen += 1
-            steps.append((c, ("mwopen",)))
+            steps.append((c, ("mwopen", (i + 1) if i % 2 == 0 else 0)))
         elif k == "mwclose":
             if not live:
                 return None
@@ -1090,7 +1347,8 @@ def random_schedule(rng, maxlen: int, maxctx: int):
             if q < 0.4 or not live:
                 live.append(nopen)
                 nopen += 1
-                op = ("mwopen",)
+                val += 1
+                op = ("mwopen", val if rng.random() < 0.6 else 0)
             elif q < 0.7:
                 op = ("mwclose", rng.choice(live))
             else:
@@ -1114,17 +1372,18 @@ def random_schedule(rng, maxlen: int, maxctx: int):
         elif r < 0.79:
             op = ("clean", tuple((rng.random() < 0.5, rng.randrange(2)) for _ in range(rng.randint(0, 3))))
         elif r < 0.86:
-            op = ("mkp", "l", v, rng.randrange(2)) if rng.random() < 0.5 else ("mkp", "s", v)
+            mm = rng.choice([0, 0, 3, 4])
+            op = ("mkp", "l", v, rng.randrange(2), mm) if rng.random() < 0.5 else ("mkp", "s", v, rng.randrange(2), mm)
             nprox += 1
         elif nprox:
-            op = ("px", rng.randrange(nprox), rng.choice(ACC))
+            op = ("px", rng.randrange(nprox), rng.choice(ACC) if rng.random() < 0.6 else f"e{rng.randrange(len(entry_names()))}")
         else:
             op = ("top", v)
         steps.append((c, op))
         for c2 in range(nctx):
             steps += [(c2, ("iter", 0)), (c2, ("iter", 1)), (c2, ("top", 0)), (c2, ("top", 1))]
             if nprox:
-                steps.append((c2, ("px", rng.randrange(nprox), rng.choice(ACC))))
+                steps.append((c2, ("px", rng.randrange(nprox), rng.choice(ACC) if rng.random() < 0.5 else f"e{rng.randrange(len(entry_names()))}")))
     return steps
 
 
@@ -1191,7 +1450,7 @@ def free_running(chk: Check, env: Env, rng, trials: int) -> int:
         for trial in range(trials):
             mode = "threads" if trial % 2 == 0 else "async"
             env.reset()
-            pre = [("mkp", "l", 0, 0), ("mkp", "s", 0), ("mkp", "l", 1, 1), ("mkp", "s", 1)] + _single_ctx_ops(rng, 12, 0)
+            pre = [("mkp", "l", 0, 0, 0), ("mkp", "s", 0, 0, 0), ("mkp", "l", 1, 1, 3), ("mkp", "s", 1, 1, 0)] + _single_ctx_ops(rng, 12, 0)
             pre = [o for o in pre if o[0] != "px" or o[1] < 4]
             nchild = 3
             plans = [_single_ctx_ops(rng, 400, 100000 * (j + 1)) for j in range(nchild + 1)]   # plan 0: the parent goes on
@@ -1271,6 +1530,56 @@ MW_CORPUS = [
 ]
 
 
+def other_proxy_kinds(chk: Check, wl) -> None:
+    """harness-only (no werkzeug storage code involved, only the contextvars contract): proxies to a bare ContextVar
+    and to a callable resolve in the accessing context; closures gco_var / gco_call are regenerated and pinned"""
+    cv = contextvars.ContextVar("c18.cv")
+    ns, stk = wl.Local(), wl.LocalStack()
+    p_cv, p_tw = wl.LocalProxy(cv), wl.LocalProxy(cv, "twin", unbound_message="nothing here")
+    p_fn = wl.LocalProxy(lambda: stk.top)
+    b1, b2 = Box(1), Box(2)
+    b1.twin, b2.twin = Box(1002), Box(1003)
+
+    def obs():
+        out = []
+        for p in (p_cv, p_tw, p_fn):
+            try:
+                o = p._get_current_object()
+                out.append("none" if o is None else f"v{o.n}")
+            except RuntimeError as e:
+                out.append("rterr:" + str(e))
+        return out + [bool(p_cv), repr(p_cv)]
+    a = contextvars.Context()
+
+    def in_a():
+        cv.set(b1)
+        stk.push(b1)
+    a.run(in_a)
+    child = a.run(contextvars.copy_context)
+
+    def in_child():
+        cv.set(b2)
+        stk.push(b2)
+    got = {"sibling": contextvars.Context().run(obs), "child-at-birth": child.run(obs)}
+    child.run(in_child)
+    got["child-after-set"] = child.run(obs)
+    got["parent-after-child-set"] = a.run(obs)
+    res = []
+    th = threading.Thread(target=lambda: res.append(obs()))
+    th.start()
+    th.join(T_WAIT)
+    got["new-thread"] = res[0] if res else None
+    unbound = ["rterr:object is not bound", "rterr:nothing here", "none", False, "<LocalProxy unbound>"]
+    want = {"sibling": unbound, "new-thread": unbound,
+            "child-at-birth": ["v1", "v1002", "v1", True, "Box(1)"], "child-after-set": ["v2", "v1003", "v2", False, "Box(2)"],
+            "parent-after-child-set": ["v1", "v1002", "v1", True, "Box(1)"]}
+    for k in want:
+        chk.case(("other-proxy", k), nontrivial=True)
+        if got[k] != want[k]:
+            chk.fail("proxy:contextvar-or-callable", f"LocalProxy(ContextVar) / LocalProxy(callable) in context {k}: observed {got[k]}, "
+                     f"the accessing context's own binding gives {want[k]}", {"context": k, "observed": got[k], "expected": want[k]})
+
+
 def schedules(rng, quick: bool, exh: dict):
     """generator of (runner, steps): corpus, exhaustive enumerations, random; fills `exh` with the measured sizes"""
     # corpus first: the schedules that expose a removed copy() / release leaking upward, and minimised past failures
@@ -1294,6 +1603,17 @@ def schedules(rng, quick: bool, exh: dict):
         for g in (0, 1):
             for r in RUNNERS:
                 yield r, realise(m, True, g)
+    # EVERY proxied operation (each entry of the regenerated table) on each kind of proxy, in a context where the
+    # object is bound (child of the creator) and in one where nothing is (a fresh thread), in all three realisations
+    for e in range(len(entry_names())):
+        st = list(PREFIX) + [(0, ("set", 0, 0, 1)), (0, ("push", 0, 2)), (0, ("spawn",)), (0, ("thread",)), (1, ("push", 0, 4))]
+        for c in (0, 1, 2):
+            for i in (0, 1, 2):
+                st.append((c, ("px", i, f"e{e}")))
+        for r in RUNNERS:
+            yield r, st
+    exh["proxy_entries"] = dict(entries=len(entry_names()), schedules=3 * len(entry_names()),
+                                observation="every entry x 3 proxies (local attr, stack top, stack top.twin) x 3 contexts, all runners")
     L_mw = 5 if quick else 6
     n = 0
     for ln in range(1, L_mw + 1):
@@ -1351,6 +1671,13 @@ def run(chk: Check) -> None:
     env = Env(wl)
     rng = chk.rng
     quick = chk.tier == "quick"
+    runtime = [k for k, v in vars(wl.LocalProxy).items() if isinstance(v, wl._ProxyLookup)]
+    special = sorted(k for k, v in vars(wl.LocalProxy).items() if k.startswith("__") and k.endswith("__") and callable(v)
+                     and not isinstance(v, wl._ProxyLookup) and k not in ("__init__",))
+    if runtime != entry_names() or special:
+        chk.broken("correspondence", "regenerated proxy_table vs LocalProxy at run time",
+                   f"table/runtime differ: {sorted(set(runtime) ^ set(entry_names()))}; special methods defined directly on the proxy: {special}")
+    other_proxy_kinds(chk, wl)
     kinds = collections.Counter()
     exh: dict = {}
     st = dict(n=0, bad=0, mism=0, spec_mism=0, first_bad=None, t_impl=0.0, t_model=0.0, samples=[])
@@ -1410,7 +1737,7 @@ def run(chk: Check) -> None:
         if not exe:
             return
         t0 = time.time()
-        body = [" ".join(mtok(s) for s in steps) for _, steps in chunk]
+        body = [mtoks(steps) for _, steps in chunk]
         res = chk.run_model(exe, ["g " + b for b in body] + ["s " + b for b in body])
         if res is None:
             return
